@@ -56,6 +56,47 @@ const SUBSTANCE_FILES: [&str; 17] = [
     "m !meter\nfoo {\n  p const q 0\n}\nbar p of foo\n",
 ];
 
+/// Property values that are zero in some representation (an exact zero, a float zero from a
+/// fractional power of zero, a float underflow), then two non-zero controls.
+const PROP_VALUES: [(&str, bool); 12] = [
+    ("0", true),
+    ("0^.5", true),
+    ("1e-300^1.5", true),
+    ("0|3", true),
+    ("-0", true),
+    ("0e5", true),
+    (".0", true),
+    ("0^.5 0^.5", true),
+    ("3 0^.5", true),
+    ("0^.5 + 0", true),
+    ("1e-400", false),
+    ("1|3", false),
+];
+
+fn prop_value_file(v: usize, pos: u64) -> String {
+    let z = PROP_VALUES[v].0;
+    match pos {
+        0 => format!("m !meter\ns !second\nfoo {{\n  p const q {} m\n}}\n", z),
+        1 => format!("m !meter\ns !second\nfoo {{\n  density a {} m / b 1 s\n}}\n", z),
+        _ => format!("m !meter\ns !second\nfoo {{\n  density a 3 m / b {} s\n}}\n", z),
+    }
+}
+
+/// Exponent boundary values in definitions (bases whose powers stay small).
+const EXP_BASES: [&str; 4] = ["1", "0", "-1", "1|1"];
+const EXP_EXPS: [&str; 10] = ["-2147483648", "2147483647", "-2147483649", "2147483648", "4294967296", "-4294967296", "9223372036854775807", "-9223372036854775808", "1e30", "-1"];
+
+fn exp_file(b: u64, e: u64, form: u64) -> String {
+    let x = format!("{}^{}", EXP_BASES[b as usize], EXP_EXPS[e as usize]);
+    match form {
+        0 => format!("m !meter\nk- {}\nu 3 km\n", x),
+        1 => format!("m !meter\nu {}\n", x),
+        2 => format!("m !meter\nu {} m\nv 2 u\n", x),
+        3 => format!("m !meter\nu m^{}\n", EXP_EXPS[e as usize]),
+        _ => format!("m !meter\nfoo {{\n  p const q {} m\n}}\n", x),
+    }
+}
+
 fn tokens(line: &str) -> Vec<(usize, usize)> {
     let mut out = vec![];
     let mut start = None;
@@ -238,6 +279,8 @@ impl C13 {
         fams.add("currency JSON: truncations", vec![json_cuts.len() as u64]);
         fams.add("currency JSON: field deleted / type replaced / bad expression", vec![paths.len() as u64, 8]);
         fams.add("date pattern soup", vec![(DATESOUP.len() as u64).pow(if thorough { 5 } else { 4 })]);
+        fams.add("substance property values: zero in every representation x position", vec![PROP_VALUES.len() as u64, 3]);
+        fams.add("exponent boundary values in definitions", vec![EXP_BASES.len() as u64, EXP_EXPS.len() as u64, 5]);
         C13 { fams, files, devs, soup_len, cyc_lens, json_paths: paths, json_cuts, needed, tier: tier.to_string() }
     }
 
@@ -411,7 +454,7 @@ impl Space for C13 {
         Meta {
             id: "C13",
             level: "exploration",
-            rule: "deviation-bounded: 0 deviations (shipped files) then every single deviation {delete line, duplicate line, swap with next, delete each token, replace each number by 0 / -1} of definitions.units (quick: every 40th line), currency.units and datepatterns.txt; every definitions file of <= 4 (thorough 5) tokens over a 27-token alphabet, loaded into an empty context and into one holding `m !meter`; dependency cycles of length 1..12, 100, 1000, 2000 (thorough 5000) through 11 namespace shapes (units, prefixes, quantities, substance property, prefix/plural readings, reverse order, bare aliases, bare aliases that also read as prefix + base unit, prefix<->unit cycles closed by a prefix used as a prefix in both visiting orders, prefixes defined by names carrying the next prefix); forward/backward alias chains of 1000/3000 (thorough also 10000); 14 malformed substance/directive files; currency JSON truncated at every (quick: every 9th) byte, every field deleted or type-replaced (8 edits); date-pattern soups. Oracle: the load returns without panic/abort/stack overflow within the limit; a problem is reported when a deleted single-line definition was needed by another and has no other reading, and for every cycle; afterwards `1 + 1` answers 2 and queries for loaded/missing names do not panic. Non-trivial = all; distinct by the text loaded".into(),
+            rule: "deviation-bounded: 0 deviations (shipped files) then every single deviation {delete line, duplicate line, swap with next, delete each token, replace each number by 0 / -1} of definitions.units (quick: every 40th line), currency.units and datepatterns.txt; every definitions file of <= 4 (thorough 5) tokens over a 27-token alphabet, loaded into an empty context and into one holding `m !meter`; dependency cycles of length 1..12, 100, 1000, 2000 (thorough 5000) through 11 namespace shapes (units, prefixes, quantities, substance property, prefix/plural readings, reverse order, bare aliases, bare aliases that also read as prefix + base unit, prefix<->unit cycles closed by a prefix used as a prefix in both visiting orders, prefixes defined by names carrying the next prefix); forward/backward alias chains of 1000/3000 (thorough also 10000); 17 malformed substance/directive files; substance property values that are zero in 10 representations (exact, float zero from `0^.5`, float underflow `1e-300^1.5`, ...) x 3 positions, which must be reported, plus non-zero controls (`1e-400`), which must load; exponent boundary values (+-2^31, +-2^32, +-2^63, 1e30) on bases 0/1/-1 in prefix, unit, unit-power and substance definitions; currency JSON truncated at every (quick: every 9th) byte, every field deleted or type-replaced (8 edits); date-pattern soups. Oracle: the load returns without panic/abort/stack overflow within the limit; a problem is reported when a deleted single-line definition was needed by another and has no other reading, and for every cycle; afterwards `1 + 1` answers 2 and queries for loaded/missing names do not panic. Non-trivial = all; distinct by the text loaded".into(),
             assumptions: vec![
                 "expression nesting depth beyond a few hundred is outside the statement's quantifier (chat-size / realistic files)".into(),
                 "the reporting clause is judged only where the harness can prove the deleted definition has no other reading".into(),
@@ -442,6 +485,10 @@ impl Space for C13 {
             format!("currency JSON cut at byte {}", self.json_cuts[d[0] as usize])
         } else if f == ns + 5 {
             format!("currency JSON edit {} at /{}", d[1], self.json_paths[d[0] as usize].join("/"))
+        } else if f == ns + 7 {
+            format!("substance property value file: {:?}", prop_value_file(d[0] as usize, d[1]))
+        } else if f == ns + 8 {
+            format!("exponent file: {:?}", exp_file(d[0], d[1], d[2]))
         } else {
             format!("date patterns: {:?}", date_soup(d[0], if self.tier == "thorough" { 5 } else { 4 }))
         }
@@ -611,6 +658,37 @@ impl Space for C13 {
             let (res, printed) = capture_stdout(|| ctx.load_definitions(text));
             let mut out = CaseOut::ok(if res.is_err() || !printed.trim().is_empty() { "substance file: reported" } else { "substance file: silent" }).key(hash64(text));
             for (s, dt) in canaries(&mut ctx, &["foo", "density of foo", "a of foo", "b of foo", "mass of foo", "p of foo", "q of foo", "3 m foo", "foo -> m", "bar", "2 foo", "foo_mass of foo"]) {
+                out = out.viol(s, format!("{}: {}", self.describe(idx), dt));
+            }
+            return out;
+        }
+        if f == ns + 8 {
+            let text = exp_file(d[0], d[1], d[2]);
+            let mut ctx = Context::new();
+            ctx.use_humanize = false;
+            let (res, printed) = capture_stdout(|| ctx.load_definitions(&text));
+            let reported = res.is_err() || !printed.trim().is_empty();
+            let mut out = CaseOut::ok(if reported { "exponent file: reported" } else { "exponent file: accepted" }).key(hash64(&text));
+            for (s, dt) in canaries(&mut ctx, &["u", "v", "ku", "3 m -> u", "p of foo", "foo"]) {
+                out = out.viol(s, format!("{}: {}", self.describe(idx), dt));
+            }
+            return out;
+        }
+        if f == ns + 7 {
+            let text = prop_value_file(d[0] as usize, d[1]);
+            let zero = PROP_VALUES[d[0] as usize].1;
+            let mut ctx = Context::new();
+            ctx.use_humanize = false;
+            let (res, printed) = capture_stdout(|| ctx.load_definitions(&text));
+            let reported = res.is_err() || !printed.trim().is_empty();
+            let mut out = CaseOut::ok(if reported { "property value: reported" } else { "property value: accepted" }).key(hash64(&text));
+            if zero && !reported {
+                out = out.viol("zero-valued substance property accepted without a report", self.describe(idx));
+            }
+            if !zero && reported {
+                out = out.viol("non-zero substance property refused", format!("{}: {:?} {}", self.describe(idx), res, printed));
+            }
+            for (s, dt) in canaries(&mut ctx, &["foo", "p of foo", "q of foo", "density of foo", "a of foo", "b of foo", "3 m foo", "3 s foo", "a of 3 s foo", "b of 3 m foo", "2 foo", "foo / 2"]) {
                 out = out.viol(s, format!("{}: {}", self.describe(idx), dt));
             }
             return out;
